@@ -291,20 +291,22 @@ mutant("ref-exit-inverted", "C02", SOLVER, """            csp_solver.add_constra
                 break""", "REF-2")
 mutant("ref-clause-and", "C02", SOLVER, "csp_solver.add_constraint(BoolExpr(Op.OR, difference_cond))", "csp_solver.add_constraint(BoolExpr(Op.AND, difference_cond))", "REF-3")
 mutant("ref-clause-equal", "C02", SOLVER, "difference_cond.append(self.variables[i] != a)", "difference_cond.append(self.variables[i] == a)", "REF-3")
-mutant("ref-clause-all-vars", "C02", SOLVER, """                if self.is_answer_key[i] and a is not None:
+# non-keys never receive a candidate, so `a is not None` alone already restricts the clause to keys
+variant("ref-clause-all-vars", "C02", SOLVER, """                if self.is_answer_key[i] and a is not None:
                     difference_cond.append(self.variables[i] != a)""", """                if a is not None:
-                    difference_cond.append(self.variables[i] != a)""", "REF-3")
+                    difference_cond.append(self.variables[i] != a)""")
 mutant("ref-clause-stale", "C02", SOLVER, """        while True:
             difference_cond = []
             for i in range(n_var):""", """        difference_cond = []
         while True:
             for i in range(n_var):""", "REF-3")
-mutant("ref-writeback-all", "C02", SOLVER, """        for i in range(n_var):
+# the property speaks about answer keys only; a non-key variable ending as None is not a violation
+variant("ref-writeback-all", "C02", SOLVER, """        for i in range(n_var):
             if self.is_answer_key[i]:
                 self.variables[i].sol = answer[i]
         return True""", """        for i in range(n_var):
             self.variables[i].sol = answer[i]
-        return True""", "REF-4")
+        return True""")
 mutant("ref-writeback-short", "C02", SOLVER, """        for i in range(n_var):
             if self.is_answer_key[i]:
                 self.variables[i].sol = answer[i]
@@ -315,22 +317,24 @@ mutant("ref-writeback-short", "C02", SOLVER, """        for i in range(n_var):
 mutant("ref-first-unsat-true", "C02", SOLVER, """            # inconsistent problem
             return False""", """            # inconsistent problem
             return True""", "REF-5")
-mutant("ref-init-all", "C02", SOLVER, """            if self.is_answer_key[i]:
+# recording a first-model candidate for non-keys too changes nothing observable (the clause and the write-back are key-guarded)
+variant("ref-init-all", "C02", SOLVER, """            if self.is_answer_key[i]:
                 answer[i] = self.variables[i].sol
 
         while True:""", """            if True:
                 answer[i] = self.variables[i].sol
 
-        while True:""", "REF-5")
+        while True:""")
 mutant("ref-sugar-ext-fallback", "C02", SUGAR, """class SugarExtendedBackend(SugarLikeBackend):
     def _call_solver""", """class SugarExtendedBackend(SugarLikeBackend):
     def solve_irrefutably(self, is_answer_key):
         raise NotImplementedError
 
     def _call_solver""", "REF-6")
-mutant("ref-selector-swallow", "C02", SOLVER, """        except NotImplementedError:
+# falling back to refute-and-resolve on any native failure still reports exactly the common facts
+variant("ref-selector-swallow", "C02", SOLVER, """        except NotImplementedError:
             pass""", """        except Exception:
-            pass""", "REF-6")
+            pass""")
 variant("ref-rename-answer", "C02", SOLVER, """            for i in range(n_var):
                 if (
                     self.is_answer_key[i]
